@@ -82,6 +82,8 @@ var worldTable = map[string]map[string]string{
 		"Int31n": "RandInt31n", "Uint32": "RandUint32", "Uint64": "RandUint64", "Float64": "RandFloat64", "Seed": "RandSeed",
 		"Perm": "RandPerm", "Shuffle": "RandShuffle", "Read": "RandRead"},
 	"crypto/rand": {"Read": "RandRead"},
+	"runtime":     {"NumCPU": "NumCPU", "GOMAXPROCS": "GOMAXPROCS"},
+	"os/user":     {"Current": "UserCurrent"},
 	"fmt":         {"Print": "Print", "Println": "Println", "Printf": "Printf"},
 }
 
